@@ -97,10 +97,20 @@ theorem facts_session_guard :
       = true ∧
     (Facts.C13.guardTable.map (·.1)).eraseDups = [0, 1] := by decide +kernel
 
-/-- `unanswered_request_count()` read from a live session agrees with the session model -/
+/-- the history a row of the table stands for -/
+def unansweredOps (k j how : Nat) : List SessOp :=
+  List.replicate k .recv ++ List.replicate j .finish ++
+    (if how = 1 then .loopExit :: List.replicate (k - j) .cancelled
+     else if how = 2 then List.replicate (k - j) .cancelled else [])
+
+/-- `unanswered_request_count()` read from live sessions of both classes agrees with the session
+model - also after the handlers still running or queued were ended by the loss of the connection
+or by the processing timeout -/
 theorem facts_unanswered :
     Facts.C13.unansweredTable.all (fun row =>
-      decide ((Sess.run ⟨true, 0⟩ (List.replicate row.1 .recv ++ List.replicate row.2.1 .finish)).unanswered
-        = row.2.2)) = true ∧ Facts.C13.unansweredTable ≠ [] := by decide +kernel
+      decide ((Sess.run ⟨true, 0⟩ (unansweredOps row.2.1 row.2.2.1 row.2.2.2.1)).unanswered = row.2.2.2.2))
+      = true ∧ 20 ≤ Facts.C13.unansweredTable.length ∧
+    (Facts.C13.unansweredTable.map (·.1)).eraseDups = [0, 1] ∧
+    (Facts.C13.unansweredTable.map (·.2.2.2.1)).eraseDups = [0, 1, 2] := by decide +kernel
 
 end Aiorpcx.C13
